@@ -27,7 +27,8 @@ def systematic():
                     if kind in ('list', 'tuple', 'range') and fail_at is not None:
                         continue
                     xs = [CODES[(i * 3 + n) % len(CODES)] for i in range(n)]
-                    out.append({'which': which, 'src': {'kind': kind, 'xs': xs, 'fail_at': fail_at},
+                    out.append({'which': which, 'src': {'kind': kind, 'xs': xs, 'fail_at': fail_at,
+                                                        'exccls': ['plain', 'runtime', 'lookup', 'timeout'][(n + (fail_at or 0)) % 4]},
                                 'strategy': {'kind': 'replay', 'prefix': []}})
                     if which == 'to_sync' and n in (0, 2, 5):
                         for own in ('fresh', 'reused'):
@@ -49,7 +50,8 @@ def gen(rng, n):
             fail_at = rng.choice([None, None] + list(range(0, ln + 1)))
             if rng.random() < 0.6:
                 steps = [rng.choice([0.0, 0.0, 1.0, 2.0, 4.0]) for _ in range(ln)]
-        sc = {'which': which, 'src': {'kind': kind, 'xs': xs, 'fail_at': fail_at, 'steps': steps},
+        sc = {'which': which, 'src': {'kind': kind, 'xs': xs, 'fail_at': fail_at, 'steps': steps,
+                                      'exccls': rng.choice(['plain', 'runtime', 'lookup', 'timeout'])},
               'consume_delay': rng.choice([0.0, 0.0, 0.0, 1.0, 3.0]), 'strategy': strat(rng)}
         if which == 'to_sync' and rng.random() < 0.3:
             sc['own_loop'] = rng.choice(['fresh', 'reused'])
